@@ -221,6 +221,51 @@ def play_history(bins, beh, n, hist, rng):
         fx.cleanup()
 
 
+def planted_checkpoint_history(bins, beh):
+    """C13, state left by an earlier invocation in an equivalent form: the stored checkpoint carries `"pending": {}` (an
+    empty map, the same checkpoint as `null`).  Runs that read it (no -t) are killed at every guarded point of a
+    checkpoint rewrite and at some of their own: afterwards `checkpoint show` still answers, with the same checkpoint."""
+    targets = [{"path": "t1"}, {"path": "t2", "uses": ["t1"]}, {"path": "t3"}]
+    fx = fixture.Fixture(bins, targets, max_retained_runs=2)
+    ev = [{"ev": "reset", "beh": beh, "n": 2}]
+    try:
+        for t in TARGETS:
+            fx.add_cmd(t, "build", [{"op": "exit", "code": 0}], ext=".sh")
+        fx.git_init()
+        if fx.monorail(["checkpoint", "update"])["rc"] != 0:
+            raise vlib.ToolError("checkpoint update failed")
+        cpp = fx.out_path("tracking", "checkpoint.json.zst")
+        raw = fixture.decode_zst(cpp)
+        try:
+            doc = json.loads(raw)
+        except (TypeError, ValueError):
+            return ev
+        if not isinstance(doc, dict) or doc.get("pending") not in (None, {}):
+            return ev
+        doc["pending"] = {}
+        z = subprocess.run(["zstd", "-q", "-c"], input=json.dumps(doc, separators=(",", ":")).encode(), stdout=subprocess.PIPE, stderr=subprocess.PIPE)
+        if z.returncode != 0:
+            return ev
+        def norm(r):
+            cp = (r["out"] or {}).get("checkpoint") if isinstance(r["out"], dict) else None
+            return None if (r["rc"] != 0 or not isinstance(cp, dict)) else (cp.get("id"), json.dumps(cp.get("pending") or {}, sort_keys=True))
+        for point in ("cp.truncated", "cp.written", "run.id_chosen", "run.planned", "lock.releasing"):
+            with open(cpp, "wb") as f:
+                f.write(z.stdout)
+            ref = norm(fx.monorail(["checkpoint", "show"]))
+            with open(cpp, "wb") as f:
+                f.write(z.stdout)
+            with open(os.path.join(fx.repo, "t1", "src.txt"), "a") as f:
+                f.write("edit %s\n" % point)
+            fx.monorail(["run", "-c", "build"], env={"MONORAIL_VERIF_CRASH": point + ":1"})
+            fx.kill_group(fx.procs[-1])
+            now = norm(fx.monorail(["checkpoint", "show"]))
+            ev.append({"ev": "cp_same", "same": ref is not None and now == ref, "point": point})
+        return ev
+    finally:
+        fx.cleanup()
+
+
 def histories(chk, tier, rng, pid):
     hs = []
     # ---- from the specification: every history of 3 invocations (N = 2), sampled in the quick tier
@@ -321,6 +366,7 @@ def run(pid, tier):
         return play_history(bins, i, n, h, random.Random(chk.seed * 31 + i))
     with ThreadPoolExecutor(max_workers=12) as ex:
         traces = list(ex.map(one, enumerate(hs)))
+    traces.append(planted_checkpoint_history(bins, len(hs)))
     # ---- internal effect order of completed runs against Store's effect sequence (MODEL-DRIFT only)
     hook_traces = [e["points"] for t in traces for e in t if e["ev"] == "_hooks" and e["points"]]
     if hook_traces:
